@@ -86,7 +86,24 @@ func validateDeactivateRequest(info *DeactivateRequestInfo) error {
 		return errors.New("missing reveal value")
 	}
 
+	if err := validateAnchorTimes(info.AnchorFrom, info.AnchorUntil); err != nil {
+		return err
+	}
+
 	return validateSigner(info.Signer)
+}
+
+// maxSafeInteger is the largest integer that is written exactly as a JSON number by the canonicalizer (2^53-1).
+const maxSafeInteger = 1<<53 - 1
+
+func validateAnchorTimes(anchorFrom, anchorUntil int64) error {
+	for _, t := range []int64{anchorFrom, anchorUntil} {
+		if t > maxSafeInteger || t < -maxSafeInteger {
+			return fmt.Errorf("anchor time %d cannot be represented exactly as a JSON number", t)
+		}
+	}
+
+	return nil
 }
 
 func validateSigner(signer Signer) error {
